@@ -316,13 +316,18 @@ def run(ctx):
     r07_7(ctx)
     # no worker is forked once the pool left RUN (a late fork after close() is a process join() never waits for)
     from .c09 import r09_1
-    r09_1(ctx)
+    r09_1(ctx, refill=False)
     from .c01 import feeder_serves_while_running
-    feeder_serves_while_running(ctx, 'R07.8')
+    feeder_serves_while_running(ctx, 'R07.8', parts='a')
+    # the feeder sends one sentinel per *current* worker, the result handler waits for the *pool's* cache to drain
+    from .c05 import helpers_hold_live_objects
+    helpers_hold_live_objects(ctx, 'R07.9', only=('TaskHandler', 'ResultHandler'))
 
 
 _P = 'billiard/pool.py'
 MUTANTS = [
+    ('task-feeder-snapshots-the-worker-list', _P, "        self.put = put\n        self.outqueue = outqueue\n        self.pool = pool\n",
+     "        self.put = put\n        self.outqueue = outqueue\n        self.pool = list(pool)\n", 'R07.9'),
     ('refill-state-checked-once', _P, "        for i in range(self._processes - len(self._pool)):\n            if self._state != RUN:\n                return\n",
      "        if self._state != RUN:\n            return\n        for i in range(self._processes - len(self._pool)):\n", 'R09.1'),
     ('feeder-ends-after-one-bad-task', _P, "                            cache[job]._set(ind, (False, ExceptionInfo()))\n                        except KeyError:\n                            pass\n",
